@@ -187,11 +187,11 @@ def handle : Handler
                                ("embedding_col", Spec.maxDiff ncol k colWant (mget ec), tol * cs)])
         [("order", Spec.isNonincreasing sv tol),
          ("shape", er.length == nr && ec.length == ncol && er.all (·.length == k) && ec.all (·.length == k))])) "bad-args"
-  | "c09.predict", [ncol, reg, fr, fc, fs, nm, sv, v, wc, nvec, len, x, xnnz] => some <| Option.getD (do
+  | "c09.predict", [ncol, reg, fr, fc, fs, nm, sv, v, wc, nvec, len, x] => some <| Option.getD (do
       let ncol ← ncol.toNat?; let reg ← optFl? reg; let fr ← fl? fr; let fc ← fl? fc; let fs ← fl? fs
       let nm ← bool? nm; let sv ← vec? sv; let v ← mat? v; let wc ← vec? wc
-      let nvec ← nvec.toNat?; let len ← len.toNat?; let x ← mat? x; let xnnz ← xnnz.toNat?
-      match gsvdPredict F (gsvdParams 1 reg fr fc fs nm) ncol sv v wc nvec len x xnnz with
+      let nvec ← nvec.toNat?; let len ← len.toNat?; let x ← mat? x
+      match gsvdPredict F (gsvdParams 1 reg fr fc fs nm) ncol sv v wc nvec len x with
       | .error e => some (showErr e)
       | .ok e => some ("ok e=" ++ showMat e)) "bad-args"
   -- ---------------------------------------------------------------- PCA
@@ -201,10 +201,10 @@ def handle : Handler
       match pcaFit F nr ncol a nnz nc nm (fun _ _ => (sv, u, v)) with
       | .error e => some (showErr e)
       | .ok o => some s!"ok sv={showVec o.singularValues} left={showMat o.left} right={showMat o.right} er={showMat o.embeddingRow} ec={showMat o.embeddingCol} mean={showVec o.mean}") "bad-args"
-  | "c09.pca_predict", [ncol, nm, sv, v, mean, nvec, len, x, xnnz] => some <| Option.getD (do
+  | "c09.pca_predict", [ncol, nm, sv, v, mean, nvec, len, x] => some <| Option.getD (do
       let ncol ← ncol.toNat?; let nm ← bool? nm; let sv ← vec? sv; let v ← mat? v; let mean ← vec? mean
-      let nvec ← nvec.toNat?; let len ← len.toNat?; let x ← mat? x; let xnnz ← xnnz.toNat?
-      match pcaPredict F nm ncol sv v mean nvec len x xnnz with
+      let nvec ← nvec.toNat?; let len ← len.toNat?; let x ← mat? x
+      match pcaPredict F nm ncol sv v mean nvec len x with
       | .error e => some (showErr e)
       | .ok e => some ("ok e=" ++ showMat e)) "bad-args"
   | "c09.pca_op", [nr, ncol, a] => some <| Option.getD (do
